@@ -13,9 +13,10 @@
                       every string and member name is well-formed UTF-8 without U+FFFD
                         (encodeString refuses anything else),
                       every number text is the canonical text of the number it reads as: an int64
-                        printed by FormatInt, or a float for which C07's float premise holds
-                        (float_okb: Float.MarshalJSON's text has the shape -?d.d+E-?d+ and ParseFloat
-                        reads it back) printed by Float.MarshalJSON.
+                        printed by FormatInt, or a float for which C07's float premise holds exactly
+                        (float_exactb: Float.MarshalJSON's text has the shape -?d.d+E-?d+ and ParseFloat
+                        reads it back as that very float) printed by Float.MarshalJSON.  Negative zero
+                        is written 0.0E0 and read back as zero: -0.0E0 is not a canonical number text.
                     Duplicate member names are allowed: both sorts are the same stable sort.
    Definitions only. *)
 From Coq Require Import List ZArith Strings.Byte Bool.
@@ -66,7 +67,7 @@ Definition real_canon (d : content) : bytes :=
 Definition num_okb (t : bytes) : bool :=
   match num_to_json t with
   | Some (JInt z) => eqb_bytes (format_int z) t
-  | Some (JFloat f) => float_okb f && eqb_bytes (float_marshal cfg_fixed f) t
+  | Some (JFloat f) => float_exactb f && eqb_bytes (float_marshal cfg_fixed f) t
   | _ => false
   end.
 
@@ -92,7 +93,7 @@ Fixpoint jgood (v : jv) : bool :=
   match v with
   | JNil => false
   | JInt z => in_int64 z
-  | JFloat f => float_okb f
+  | JFloat f => float_exactb f
   | JStr s => clean_utf8 s
   | JArr l => forallb jgood l
   | JObj m => forallb (fun kv => clean_utf8 (fst kv) && jgood (snd kv)) m
